@@ -62,6 +62,10 @@ type EngineRoot struct {
 	Wait    bool   `json:"wait"`
 	Trigger string `json:"trigger"`
 	Contact J      `json:"contact"`
+	// RefreshPatch makes the contact carried by "refresh:" resumes from the session's own contact
+	// (nil: world.RefreshedContact(), which differs in everything)
+	RefreshPatch J      `json:"refresh_patch,omitempty"`
+	Variant      string `json:"variant,omitempty"`
 }
 
 func (r *EngineRoot) String() string {
@@ -69,7 +73,11 @@ func (r *EngineRoot) String() string {
 	if r.Wait {
 		w = "wait"
 	}
-	return fmt.Sprintf("%s %s %s (%s trigger)", Actions[r.A].Name, w, Actions[r.B].Name, r.Trigger)
+	v := ""
+	if r.Variant != "" {
+		v = ", refreshed contact differs in: " + r.Variant
+	}
+	return fmt.Sprintf("%s %s %s (%s trigger%s)", Actions[r.A].Name, w, Actions[r.B].Name, r.Trigger, v)
 }
 
 func (r *EngineRoot) flow() J {
@@ -94,7 +102,7 @@ func (r *EngineRoot) flow() J {
 
 // World builds the world.Root for this engine root.
 func (r *EngineRoot) World() *world.Root {
-	return &world.Root{Assets: Assets([]any{r.flow()}), Trigger: r.Trigger, Contact: r.Contact, TrigMsg: "Cat"}
+	return &world.Root{Assets: Assets([]any{r.flow()}), Trigger: r.Trigger, Contact: r.Contact, TrigMsg: "Cat", RefreshPatch: r.RefreshPatch}
 }
 
 // EngineContacts: per status a minimal and a rich contact, with and without wrong stored
@@ -149,6 +157,79 @@ func EngineRoots() []EngineRoot {
 						out = append(out, EngineRoot{A: a, B: b, Wait: w, Trigger: tr, Contact: c})
 					}
 				}
+			}
+		}
+	}
+	return out
+}
+
+// RefreshBase is the contact of the single-aspect refresh family: the first action of those roots
+// (set name to Bob) does not change it.
+func RefreshBase() J {
+	return J{
+		"uuid": world.UUID("contact"), "id": 1234, "name": "Bob", "language": "eng", "status": "active", "timezone": "America/New_York",
+		"created_on": "2020-01-01T12:00:00.000000000Z",
+		"urns":       []any{URNTel, URNTwitter2},
+		"groups":     []any{J{"uuid": world.GroupA, "name": "Group A"}},
+		"fields":     J{"gender": J{"text": "F"}, "age": J{"text": "30", "number": 30}},
+		"ticket":     J{"uuid": world.UUID("ticket-0"), "topic": J{"uuid": world.TopicA, "name": "General"}, "assignee": J{"email": "bob@nyaruka.com", "name": "Bob"}},
+	}
+}
+
+// RefreshVariants are patches (see world.Root.RefreshPatch) over the session's own contact: the
+// contact a caller hands to a resume when exactly one thing about the contact changed while the
+// session waited (or nothing at all).
+func RefreshVariants() []struct {
+	Name  string
+	Patch J
+} {
+	type variant = struct {
+		Name  string
+		Patch J
+	}
+	baseTicket := func() J { return RefreshBase()["ticket"].(J) }
+	tk := func(edit func(t J)) J {
+		t := baseTicket()
+		edit(t)
+		return J{"ticket": t}
+	}
+	return []variant{
+		{"same", J{}},
+		{"name", J{"name": "Zed"}},
+		{"name-removed", J{"name": nil}},
+		{"language", J{"language": "fra"}},
+		{"language-removed", J{"language": nil}},
+		{"status", J{"status": "blocked", "groups": nil}},
+		{"timezone", J{"timezone": "Africa/Kigali"}},
+		{"timezone-removed", J{"timezone": nil}},
+		{"urn-added", J{"urns": []any{URNTel, URNTwitter2, URNTel2}}},
+		{"urn-removed", J{"urns": []any{URNTel}}},
+		{"urns-reordered", J{"urns": []any{URNTwitter2, URNTel}}},
+		{"urn-affinity", J{"urns": []any{URNTel + "?channel=" + world.ChanTel, URNTwitter2}}},
+		{"urn-display", J{"urns": []any{URNTel, "twitterid:123#anna"}}},
+		{"group-added", J{"groups+": []any{J{"uuid": world.GroupB, "name": "Group B"}}}},
+		{"group-removed", J{"groups-": []any{world.GroupA}}},
+		{"field-changed", J{"fields": J{"gender": J{"text": "F"}, "age": J{"text": "31", "number": 31}}}},
+		{"field-removed", J{"fields": J{"age": J{"text": "30", "number": 30}}}},
+		{"field-added", J{"fields": J{"gender": J{"text": "F"}, "age": J{"text": "30", "number": 30}, "state": J{"text": "Kigali", "state": "Rwanda > Kigali City"}}}},
+		{"ticket-topic", tk(func(t J) { t["topic"] = J{"uuid": world.TopicB, "name": "Support"} })},
+		{"ticket-assignee", tk(func(t J) { t["assignee"] = J{"email": "jim@nyaruka.com", "name": "Jim"} })},
+		{"ticket-unassigned", tk(func(t J) { delete(t, "assignee") })},
+		{"ticket-other", tk(func(t J) { t["uuid"] = world.UUID("ticket-1") })},
+		{"ticket-closed", J{"ticket": nil}},
+		{"last-seen", J{"last_seen_on": "2031-01-01T00:00:00.000000000Z"}},
+		{"last-seen-earlier", J{"last_seen_on": "2021-01-01T00:00:00.000000000Z"}},
+	}
+}
+
+// RefreshRoots: set-name-to-Bob (a no-op on RefreshBase), a msg wait, then every action; the resume
+// carries one of the variants.
+func RefreshRoots() []EngineRoot {
+	var out []EngineRoot
+	for _, v := range RefreshVariants() {
+		for b := range Actions {
+			for _, tr := range []string{"manual", "msg"} {
+				out = append(out, EngineRoot{A: 0, B: b, Wait: true, Trigger: tr, Contact: RefreshBase(), RefreshPatch: v.Patch, Variant: v.Name})
 			}
 		}
 	}
